@@ -273,6 +273,28 @@ pub fn spec(id: &str) -> Option<Spec> {
             worker_timeout_s: |t| t.pick(1500, 5 * 3600),
             rayon_threads: 2,
         },
+        "C06" => Spec {
+            id: "C06",
+            level: "exploration",
+            rule: "Operator matrix: for every type in {u8,u16,u32,u64,u128,u256,i8,i16,i32,i64,i128,felt252} and every \
+                   operation that exists for it (+ - * / % div_rem, comparisons, min/max, & | ^ ~, sqrt, wide_mul, \
+                   overflowing/wrapping/checked/saturating add sub mul, neg, pow, u256_inv_mod, u128 byte reverse, and \
+                   into / try_into to every other type) a one-line Cairo function is compiled by the real pipeline and \
+                   run in the VM; the decoded result (value, or panic vs value) is compared with a big-integer model. \
+                   Operands: the full boundary cross product {MIN,MIN+1,MIN+2,-2..3,10,100,MAX-2..MAX,+-2^k,+-2^k+-1} \
+                   plus seeded random operands (quick 150, thorough 10000 per case); ALL 65536 operand pairs for add, \
+                   sub, mul on u8 and i8 (quick) and for every binary operation on u8 and i8 (thorough) - see the set \
+                   ops_exhaustive_over_8_bit_operands. Non-trivial = distinct (type, op, operand vector) compared.",
+            floor: |t| t.pick(50_000, 1_000_000),
+            shards: |_| 1,
+            crash_is_violation: false,
+            assumptions: &[
+                "the model is ordinary integer arithmetic: checked operators panic iff the result leaves the type's range, signed / and % truncate toward zero, felt252 arithmetic is mod P",
+                "panic data is not compared here (C01 does), only panic-vs-value and the value",
+            ],
+            worker_timeout_s: |t| t.pick(1500, 5 * 3600),
+            rayon_threads: 16,
+        },
         _ => return None,
     })
 }
@@ -291,6 +313,7 @@ pub fn worker(id: &str, ctx: &mut Ctx) {
         "C10" => crate::frontend::c10_worker(ctx),
         "C02" | "C04" | "C17" => crate::execchecks::exec_worker(ctx, id),
         "C14" | "C15" => crate::sierra_mut::sierra_worker(ctx, id),
+        "C06" => crate::opmatrix::c06_worker(ctx),
         "C11" => crate::fmtchecks::c11_worker(ctx),
         "C12" => crate::dbscen::c12_worker(ctx),
         "C13" => crate::dbscen::c13_worker(ctx),
@@ -309,6 +332,7 @@ pub fn replay(id: &str, case: &Value) -> Result<Option<String>, String> {
         "C10" => crate::frontend::c10_replay(case),
         "C02" | "C04" | "C17" => crate::execchecks::exec_replay(id, case),
         "C14" | "C15" => crate::sierra_mut::sierra_replay(id, case),
+        "C06" => crate::opmatrix::c06_replay(case),
         "C11" => crate::fmtchecks::c11_replay(case),
         "C12" => crate::dbscen::c12_replay(case),
         "C13" => crate::dbscen::c13_replay(case),
